@@ -1109,6 +1109,12 @@ class WorkflowConductor(object):
                 for staged_next_task in staged_next_tasks:
                     staged_next_task["run_on_fail"] = True
 
+            # Mark task as terminal when none of the task transitions is taken. This is the same
+            # as a task with no transitions and it must not depend on whether the workflow happens
+            # to complete (instead of pause) when this task is completed.
+            if task_transitions and not any(task_state_entry["next"].values()):
+                task_state_entry["term"] = True
+
         # Process the task event using the workflow state machine and update the workflow status.
         task_ex_event = events.TaskExecutionEvent(task_id, route, task_state_entry["status"])
         machines.WorkflowStateMachine.process_event(self.workflow_state, task_ex_event)
